@@ -23,6 +23,7 @@ RULE = (
     "result is a new state; distinct = canonical state"
 )
 ASSUMPTIONS = [
+    "selections that leave no element along a grid dimension are not generated (there is no grid with zero faces to attach the result to)",
     "an operation is applicable in a state iff it succeeds on the plain-xarray shadow; it must then succeed on the UxDataArray and agree in values, dims, coords, name",
     "uxarray's own operations have no xarray reference: only type, attached grid and the dimension/element-count invariant are judged (their values belong to C06/C09/C12/C16/C17/C18)",
     "UxDataset is not reachable (its constructor is incompatible with the installed xarray)",
@@ -76,6 +77,8 @@ def _ops(other_grid):
     op("isel(t=0,n_face=[0,1])", lambda x: x.isel(t=0, n_face=[0, 1]))
     op("isel(n_face=[3,1])", lambda x: x.isel(n_face=[3, 1]))  # not ascending: values follow the requested order, as in plain xarray
     op("isel(n_face=[2,2,0])", lambda x: x.isel(n_face=[2, 2, 0]))  # a face requested twice
+    op("isel(n_face=[-1,0])", lambda x: x.isel(n_face=[-1, 0]))  # from-the-end index
+    op("isel(n_face=slice(1,4))", lambda x: x.isel(n_face=slice(1, 4)))
     op("ux.isel(n_node=[2],lev=1)", lambda x: x.isel(n_node=[2], lev=1), ux_only=True)  # inclusive node selection: no xarray counterpart
     op("x[0]", lambda x: x[0] if x.dims[0] not in ("n_face", "n_node", "n_edge") else (_ for _ in ()).throw(KeyError("grid dim")))
     op("mean(t)", lambda x: x.mean("t"))
@@ -191,6 +194,8 @@ def run_case(case):
                         continue  # not applicable in this state
                     if not isinstance(xs, xr.DataArray):
                         continue
+                    if any(d in ("n_face", "n_node", "n_edge") and n == 0 for d, n in zip(xs.dims, xs.shape)):
+                        continue  # an empty selection has no Grid to be attached to: outside the statement
                 res["transitions"] += 1
                 try:
                     r = fn(u)
